@@ -184,7 +184,7 @@ func mitmFilter(m *wMitm, dir string) func([]byte) []byte {
 type wMsgFault struct {
 	Dir  string `json:"dir"`
 	K    int    `json:"k"`
-	Kind string `json:"kind"` // silence | werr | slow (the k-th write of that direction takes 1.2 s: a congested link, a full pty buffer)
+	Kind string `json:"kind"` // silence | werr | slow[:<ms>] (the k-th write of that direction takes 1.2 s, or <ms>: a congested link, a full pty buffer)
 }
 
 // wLocalFault is a local I/O failure at the k-th call of an R9 hook on one side.
@@ -487,20 +487,21 @@ func snapDiff(want, got map[string]string) string {
 // ---------- the world ----------
 
 type world struct {
-	p              wParams
-	localN         int    // how often the hook named by p.Local was reached on that side
-	pendingChoices int    // Ctrl-C typed, menu not yet answered
-	root           string // scratch root of this execution
-	srcRoot        string
-	dstRoot        string
-	tops           []string
-	entries        []treeEntry
-	keys           *vs.Pipe   // user typing
-	term           *vs.Sink   // local terminal
-	c2s, s2c       []*vs.Pipe // wires, index 0 next to the client
-	filter         *TrzszFilter
-	relays         []*TrzszRelay
-	stdout         *os.File // what the server's process prints to its stdout outside the transfer writer
+	p                wParams
+	localN           int    // how often the hook named by p.Local was reached on that side
+	attackerAnswered string // set by a stranger thread that got an answer it must not get
+	pendingChoices   int    // Ctrl-C typed, menu not yet answered
+	root             string // scratch root of this execution
+	srcRoot          string
+	dstRoot          string
+	tops             []string
+	entries          []treeEntry
+	keys             *vs.Pipe   // user typing
+	term             *vs.Sink   // local terminal
+	c2s, s2c         []*vs.Pipe // wires, index 0 next to the client
+	filter           *TrzszFilter
+	relays           []*TrzszRelay
+	stdout           *os.File // what the server's process prints to its stdout outside the transfer writer
 
 	srvTransfer                *trzszTransfer
 	srvStarted                 bool
@@ -715,12 +716,16 @@ func buildWorld(p wParams) *world {
 	}
 	msgFilter := func(dir string) func([]byte) []byte {
 		for _, f := range p.MsgFaults {
-			if f.Dir == dir && f.Kind == "slow" {
+			if f.Dir == dir && strings.HasPrefix(f.Kind, "slow") {
 				k, n := f.K, 0
+				ms := 1200
+				if i := strings.IndexByte(f.Kind, ':'); i > 0 {
+					fmt.Sscanf(f.Kind[i+1:], "%d", &ms)
+				}
 				return func(b []byte) []byte {
 					n++
 					if n == k {
-						vs.Sleep(1200 * time.Millisecond) // the writer is held in this write
+						vs.Sleep(time.Duration(ms) * time.Millisecond) // the writer is held in this write
 					}
 					return b
 				}
